@@ -189,17 +189,28 @@ pub struct VmProc {
     pub line_counter: usize,
 }
 
-fn attach_env(vm: &mut vm::VM<SimState>, spec: &EnvSpec, term_cursor: usize) {
+/// Position of the job in its environment's I/O history; snapshotted with every checkpoint and
+/// rewound on restart so that re-executed lines see the same environment again.
+#[derive(Clone, Copy, Debug, Default, Serialize, Deserialize, PartialEq, Eq)]
+pub struct EnvCursor {
+    pub term_cursor: usize,
+    pub term_calls: u64,
+    pub fs_reads: u64,
+}
+
+fn attach_env(vm: &mut vm::VM<SimState>, spec: &EnvSpec, cursor: &EnvCursor) {
     vm.working_directory = Some(PathBuf::from(SIM_CWD));
     let fs = SimFs::default();
     for (name, content) in &spec.files {
         fs.add(name, content);
     }
     *fs.read_faults.borrow_mut() = spec.fs_read_faults.iter().cloned().collect();
+    fs.reads.set(cursor.fs_reads);
     vm.state.env.fs = Rc::new(RefCell::new(fs));
     let term = SimTerminal {
         lines: spec.terminal.clone(),
-        cursor: term_cursor,
+        cursor: cursor.term_cursor,
+        calls: cursor.term_calls,
         faults: spec.term_faults.iter().cloned().collect(),
         ..Default::default()
     };
@@ -220,7 +231,7 @@ impl VmProc {
             clock.month,
             clock.year,
         );
-        attach_env(&mut vm, spec, 0);
+        attach_env(&mut vm, spec, &EnvCursor::default());
         VmProc {
             vm,
             line_counter: 0,
@@ -232,7 +243,7 @@ impl VmProc {
         format: Format,
         bytes: &[u8],
         spec: &EnvSpec,
-        term_cursor: usize,
+        cursor: &EnvCursor,
         extra_files: &[(PathBuf, Vec<u8>)],
         line_counter: usize,
     ) -> Result<VmProc, String> {
@@ -271,7 +282,7 @@ impl VmProc {
                 return Err(format!("deserialise panic at {location}: {message}"))
             }
         };
-        attach_env(&mut vm, spec, term_cursor);
+        attach_env(&mut vm, spec, cursor);
         for (p, b) in extra_files {
             vm.state
                 .env
@@ -307,8 +318,13 @@ impl VmProc {
         }
     }
 
-    pub fn term_cursor(&self) -> usize {
-        self.vm.state.env.term.borrow().cursor
+    pub fn env_cursor(&self) -> EnvCursor {
+        let t = self.vm.state.env.term.borrow();
+        EnvCursor {
+            term_cursor: t.cursor,
+            term_calls: t.calls,
+            fs_reads: self.vm.state.env.fs.borrow().reads.get(),
+        }
     }
 
     /// Files currently in the simulated file system (for rewinding on restart).
